@@ -939,9 +939,10 @@ static int t_recv(const void *s, void *buf, const size_t len, const time_t timeo
 		rcalls[rcalls_n].off = fbuf_off;
 		rcalls_n++;
 	}
-	if (fbuf_off > 0 && timeout <= 0 && !(cut_at >= 0 && (int)fbuf_off >= cut_at)) {
+	if (fbuf_off > 0 && timeout <= 0 && !getenv("VH_CHUNK") && !(cut_at >= 0 && (int)fbuf_off >= cut_at)) {
 		/* the client's deadline for this header / body has passed while the frame was trickling in: a transport
-		 * asked to wait no time at all reports a timeout */
+		 * asked to wait no time at all reports a timeout (not under an imposed chunking, where C04 compares the
+		 * outcomes of two chunkings and no outcome may hang on time) */
 		bool in_hdr = fbuf_off < 8;
 
 		frame_pending = false;
